@@ -189,6 +189,64 @@ Theorem C19_rtu_crc_from_source : forall buf, bytes_ok buf = true ->
 Proof. exact go_RtuCrc_is_model_bytes. Qed.
 Print Assumptions C19_rtu_crc_from_source.
 
+(* modbus/data.go from the source: each of its fifteen conversion functions, as the translator printed it
+   (Anchors/Generated.v, syntax trees of MiniGo/Slice.v), evaluates under MiniGo/Slice.v's semantics to the
+   model function of Modbus/Conv.v that C19_conv_inverse is about -- for every input slice within the
+   element range of its Go type (float32 values as bit patterns; len_ok: fewer than 2^61 elements).
+   Proofs: Anchors/TieModbusData.v. *)
+From Verif Require Import MiniGo.Slice Anchors.TieModbusData.
+Theorem C19_conv_from_source :
+  (forall rs, Forall u16_ok rs -> len_ok rs ->
+     srun go_modbus_RegsToUint32 [map Z.of_N rs] = Some (map Z.of_N (RegsToUint32 rs)) /\
+     srun go_modbus_RegsToUint32SwapWords [map Z.of_N rs] = Some (map Z.of_N (RegsToUint32SwapWords rs)) /\
+     srun go_modbus_RegsToInt32 [map Z.of_N rs] = Some (RegsToInt32 rs) /\
+     srun go_modbus_RegsToInt32SwapWords [map Z.of_N rs] = Some (RegsToInt32SwapWords rs) /\
+     srun go_modbus_RegsToFloat32 [map Z.of_N rs] = Some (map Z.of_N (RegsToFloat32 rs)) /\
+     srun go_modbus_RegsToFloat32SwapWords [map Z.of_N rs] = Some (map Z.of_N (RegsToFloat32SwapWords rs)) /\
+     srun go_modbus_RegsToInt16 [map Z.of_N rs] = Some (RegsToInt16 rs) /\
+     srun go_modbus_PutUint16Array [map Z.of_N rs] = Some (map Z.of_N (PutUint16Array rs))) /\
+  (forall us, Forall u32_ok us -> len_ok us ->
+     srun go_modbus_Uint32ToRegs [map Z.of_N us] = Some (map Z.of_N (Uint32ToRegs us)) /\
+     srun go_modbus_Uint32ToRegsSwapRegs [map Z.of_N us] = Some (map Z.of_N (Uint32ToRegsSwapRegs us)) /\
+     srun go_modbus_Float32ToRegs [map Z.of_N us] = Some (map Z.of_N (Float32ToRegs us)) /\
+     srun go_modbus_Float32ToRegsSwapWords [map Z.of_N us] = Some (map Z.of_N (Float32ToRegsSwapWords us))) /\
+  (forall zs, Forall i32_ok zs -> len_ok zs ->
+     srun go_modbus_Int32ToRegs [zs] = Some (map Z.of_N (Int32ToRegs zs)) /\
+     srun go_modbus_Int32ToRegsSwapWords [zs] = Some (map Z.of_N (Int32ToRegsSwapWords zs))) /\
+  (forall d, Forall byte_ok d -> len_ok d ->
+     srun go_modbus_Uint16Array [map Z.of_N d] = Some (map Z.of_N (Uint16Array d))).
+Proof.
+  split; [|split; [|split]].
+  - intros rs Hok Hlen. repeat split.
+    + exact (go_RegsToUint32_is_model rs Hok Hlen).
+    + exact (go_RegsToUint32SwapWords_is_model rs Hok Hlen).
+    + exact (go_RegsToInt32_is_model rs Hok Hlen).
+    + exact (go_RegsToInt32SwapWords_is_model rs Hok Hlen).
+    + exact (go_RegsToFloat32_is_model rs Hok Hlen).
+    + exact (go_RegsToFloat32SwapWords_is_model rs Hok Hlen).
+    + exact (go_RegsToInt16_is_model rs Hok Hlen).
+    + exact (go_PutUint16Array_is_model rs Hok Hlen).
+  - intros us Hok Hlen. repeat split.
+    + exact (go_Uint32ToRegs_is_model us Hok Hlen).
+    + exact (go_Uint32ToRegsSwapRegs_is_model us Hok Hlen).
+    + exact (go_Float32ToRegs_is_model us Hok Hlen).
+    + exact (go_Float32ToRegsSwapWords_is_model us Hok Hlen).
+  - intros zs Hok Hlen. split.
+    + exact (go_Int32ToRegs_is_model zs Hok Hlen).
+    + exact (go_Int32ToRegsSwapWords_is_model zs Hok Hlen).
+  - intros d Hok Hlen. exact (go_Uint16Array_is_model d Hok Hlen).
+Qed.
+Print Assumptions C19_conv_from_source.
+
+(* the premises are satisfiable and the printed functions run: two registers to one value and back, both word orders *)
+Example C19_conv_from_source_example :
+  srun go_modbus_RegsToUint32 [[4660; 22136]%Z] = Some [305419896%Z] /\
+  srun go_modbus_Uint32ToRegsSwapRegs [[305419896]%Z] = Some [22136; 4660]%Z /\
+  srun go_modbus_RegsToInt32 [[65535; 65534]%Z] = Some [(-2)%Z] /\
+  srun go_modbus_Uint16Array [[1; 2; 3]%Z] = Some [258%Z] /\
+  srun go_modbus_RegsToUint32 [[1; 2; 3]%Z] = Some [65538%Z].
+Proof. repeat split; vm_compute; reflexivity. Qed.
+
 (* ---------- a register map that grows while the server is serving (Regs.AddReg between requests) ----------
    adding a register changes nothing that the map already held, for registers and for coils; a new register reads 0
    (Modbus/GrowProofs.v).  The sessions of the check add registers between calls (call 7) and the theorems above
